@@ -370,14 +370,24 @@ fn get_cell_from_excel(
                 if let Some(anchor) = anchor_cell {
                     Cell::SpillCell {
                         v: SpillValue::Number(
-                            cell_value.unwrap_or("0").parse::<f64>().unwrap_or(0.0),
+                            cell_value
+                                .unwrap_or("0")
+                                .parse::<f64>()
+                                .ok()
+                                .filter(|v| v.is_finite())
+                                .unwrap_or(0.0),
                         ),
                         s: cell_style,
                         a: anchor,
                     }
                 } else {
                     Cell::NumberCell {
-                        v: cell_value.unwrap_or("0").parse::<f64>().unwrap_or(0.0),
+                        v: cell_value
+                            .unwrap_or("0")
+                            .parse::<f64>()
+                            .ok()
+                            .filter(|v| v.is_finite())
+                            .unwrap_or(0.0),
                         s: cell_style,
                     }
                 }
@@ -485,7 +495,12 @@ fn get_cell_from_excel(
         match cell_type {
             "b" => make_cell(FormulaValue::Boolean(cell_value == Some("1"))),
             "n" => make_cell(FormulaValue::Number(
-                cell_value.unwrap_or("0").parse::<f64>().unwrap_or(0.0),
+                cell_value
+                    .unwrap_or("0")
+                    .parse::<f64>()
+                    .ok()
+                    .filter(|v| v.is_finite())
+                    .unwrap_or(0.0),
             )),
             "e" => {
                 // For compatibility reasons Excel does not put the value #SPILL! but adds it as a metadata
